@@ -394,12 +394,36 @@ def sym_integrals4(env, m, lo=-2, hi=2):
     return const, h, eri
 
 
-def h_hcb_general(env, m, canary=False):
+def sym_integrals4c(env, m, lo=-2, hi=2):
+    """COMPLEX integrals of a Hermitian, spin-free Hamiltonian (complex orbitals): h[j][i] = conj(h[i][j]),
+    (ij|kl) = (kl|ij) = conj((ji|lk)) = conj((lk|ji))"""
+    const = env.real("E0", lo, hi)
+    h = [[None] * m for _ in range(m)]
+    for i in range(m):
+        for j in range(i, m):
+            if i == j:
+                h[i][i] = env.real(f"h{i}{i}", lo, hi)
+            else:
+                h[i][j] = env.complex(f"h{i}{j}")
+                h[j][i] = h[i][j].conjugate()
+    eri = [[[[None] * m for _ in range(m)] for _ in range(m)] for _ in range(m)]
+    for i, j, k, l in itertools.product(range(m), repeat=4):
+        if eri[i][j][k][l] is None:
+            selfconj = (i, j, k, l) in ((j, i, l, k), (l, k, j, i))
+            v = env.real(f"g{i}{j}{k}{l}", lo, hi) if selfconj else env.complex(f"g{i}{j}{k}{l}")
+            for (a, b, c, d) in ((i, j, k, l), (k, l, i, j)):
+                eri[a][b][c][d] = v
+            for (a, b, c, d) in ((j, i, l, k), (l, k, j, i)):
+                eri[a][b][c][d] = v.conjugate()
+    return const, h, eri
+
+
+def h_hcb_general(env, m, canary=False, complex_ints=False):
     """HCB on a Hermitian number- and spin-conserving Hamiltonian whose two-body integrals have only the 4-fold symmetry;
     oracle = action of the fermionic operator itself (operator route), restricted to the paired space"""
     from symx import shim
     from tangelo.toolboxes.qubit_mappings.mapping_transform import fermion_to_qubit_mapping
-    const, h, eri = sym_integrals4(env, m)
+    const, h, eri = (sym_integrals4c if complex_ints else sym_integrals4)(env, m)
     terms = fock.molecular_hamiltonian_terms(const, h, eri, m)
     H = build_fermion_op(terms)
     old = shim.ALLOC_OBJECT
@@ -565,6 +589,7 @@ def shapes(tier, seed):
     for m in ((2, 3) if quick else (2, 3, 4)):
         out.append(Shape(f"hcb/m{m}", h_hcb, dict(m=m), modules=MODS))
         out.append(Shape(f"hcb4fold/m{m}", h_hcb_general, dict(m=m), modules=MODS))
+        out.append(Shape(f"hcb4fold-complex/m{m}", h_hcb_general, dict(m=m, complex_ints=True), modules=MODS))
     out.append(Shape("canary/hcb", h_hcb, dict(m=2, canary=True), modules=MODS, canary=True))
     # (f)  every (n_alpha, n_beta) with at least two configurations
     import math
